@@ -120,10 +120,11 @@ Lemma skip_out_good : good_outc skip_out.
 Proof. unfold good_outc; cbn; discriminate. Qed.
 
 Lemma verify_oci_good v sc :
+  sel_wf (v_oci v) = true ->
   pm_ok (v_pm v) = true -> sc_wf sc = true -> good_v (oci_selected v) (verify_oci v sc).
 Proof.
-  intros Hpm Hsc. unfold verify_oci, oci_selected.
-  destruct (v_oci v) as [[|l]|]; try (apply gv_err_early; reflexivity).
+  intros Hsel Hpm Hsc. unfold verify_oci, oci_selected.
+  destruct (v_oci v) as [[| |l]|]; try (apply gv_err_early; reflexivity); [discriminate Hsel|].
   destruct (is_skip l).
   { apply gv_ok; [reflexivity | reflexivity | discriminate | apply skip_out_good]. }
   pose proof (process_signature_no_panic l (v_pm v) sc Hpm Hsc) as Hn.
@@ -138,10 +139,11 @@ Proof.
 Qed.
 
 Lemma verify_blob_good v sc :
+  sel_wf (v_blob v) = true ->
   pm_ok (v_pm v) = true -> sc_wf sc = true -> good_v (blob_selected v) (verify_blob v sc).
 Proof.
-  intros Hpm Hsc. unfold verify_blob, blob_selected.
-  destruct (v_blob v) as [[|l]|]; try (apply gv_err_early; reflexivity).
+  intros Hsel Hpm Hsc. unfold verify_blob, blob_selected.
+  destruct (v_blob v) as [[| |l]|]; try (apply gv_err_early; reflexivity); [discriminate Hsel|].
   destruct (is_skip l).
   { apply gv_ok; [reflexivity | reflexivity | discriminate | apply skip_out_good]. }
   pose proof (process_signature_no_panic l (v_pm v) sc Hpm Hsc) as Hn.
@@ -176,11 +178,12 @@ Lemma call_of_good_v sel o :
 Proof. intros H; destruct H; try (apply gc_err). apply gc_ok; assumption. Qed.
 
 Lemma call_verify_good impl v sc :
+  sel_wf (v_oci v) = true ->
   impl <> VNil -> impl_wf impl = true -> pm_ok (v_pm v) = true -> sc_wf sc = true ->
   good_call (call_verify impl v sc).
 Proof.
-  intros Hn Hi Hpm Hsc. destruct impl as [| |out err]; [congruence| |].
-  - cbn. apply (call_of_good_v _ _ (verify_oci_good v sc Hpm Hsc)).
+  intros Hsel Hn Hi Hpm Hsc. destruct impl as [| |out err]; [congruence| |].
+  - cbn. apply (call_of_good_v _ _ (verify_oci_good v sc Hsel Hpm Hsc)).
   - cbn. destruct err; [apply gc_err|].
     destruct out as [c|]; cbn in Hi; [|discriminate].
     apply gc_ok; [|apply custom_outc_good].
@@ -188,11 +191,12 @@ Proof.
 Qed.
 
 Lemma call_verify_blob_good impl v sc :
+  sel_wf (v_blob v) = true ->
   impl <> VNil -> impl_wf impl = true -> pm_ok (v_pm v) = true -> sc_wf sc = true ->
   good_call (call_verify_blob impl v sc).
 Proof.
-  intros Hn Hi Hpm Hsc. destruct impl as [| |out err]; [congruence| |].
-  - cbn. apply (call_of_good_v _ _ (verify_blob_good v sc Hpm Hsc)).
+  intros Hsel Hn Hi Hpm Hsc. destruct impl as [| |out err]; [congruence| |].
+  - cbn. apply (call_of_good_v _ _ (verify_blob_good v sc Hsel Hpm Hsc)).
   - cbn. destruct err; [apply gc_err|].
     destruct out as [c|]; cbn in Hi; [|discriminate].
     apply gc_ok; [|apply custom_outc_good].
@@ -211,39 +215,41 @@ Inductive good_loop : lres -> Prop :=
 | gl_exc : good_loop LExceeded
 | gl_end b : good_loop (LEnd b).
 
-Lemma nloop_good impl v : impl <> VNil -> impl_wf impl = true -> pm_ok (v_pm v) = true ->
+Lemma nloop_good impl v : sel_wf (v_oci v) = true ->
+  impl <> VNil -> impl_wf impl = true -> pm_ok (v_pm v) = true ->
   forall k any items, forallb item_wf items = true -> good_loop (nloop impl v k any items).
 Proof.
-  intros Hn Hi Hpm. induction k as [|k IH]; intros any items Hit; cbn [nloop].
+  intros Hsel Hn Hi Hpm. induction k as [|k IH]; intros any items Hit; cbn [nloop].
   - constructor.
   - destruct items as [|[|sc] rest]; try constructor.
     cbn in Hit. apply andb_prop in Hit as [Hsc Hrest].
-    pose proof (call_verify_good impl v sc Hn Hi Hpm Hsc) as Hc.
+    pose proof (call_verify_good impl v sc Hsel Hn Hi Hpm Hsc) as Hc.
     inversion Hc as [o Ho Hg Heq | o e Heq].
     + apply gl_succ; assumption.
     + destruct o; [apply IH; assumption | constructor].
 Qed.
 
-Lemma skip_verify_shape v :
+Lemma skip_verify_shape v : sel_wf (v_oci v) = true ->
   (exists e, skip_verify v = ORet false None [] (Some e)) \/
   skip_verify v = ORet true (Some NSkip) [] None \/
   (exists n, n <> NSkip /\ skip_verify v = ORet false (Some n) [] None).
 Proof.
-  unfold skip_verify. destruct (v_oci v) as [[|l]|]; try (left; eexists; reflexivity).
+  intros Hsel. unfold skip_verify. destruct (v_oci v) as [[| |l]|]; try (left; eexists; reflexivity); [discriminate Hsel|].
   destruct l; cbn; try (right; right; eexists; split; [|reflexivity]; discriminate).
   right; left; reflexivity.
 Qed.
 
 Lemma nverify_good impl v n :
+  sel_wf (v_oci v) = true ->
   impl_wf impl = true -> pm_ok (v_pm v) = true -> forallb item_wf (n_items n) = true ->
   good_n (nverify impl v n).
 Proof.
-  intros Hi Hpm Hit. unfold nverify.
+  intros Hsel Hi Hpm Hit. unfold nverify.
   destruct impl as [| |out err] eqn:Eimpl; [apply gn_err| |].
   - (* the library's verifier *)
     destruct (n_repo_nil n); [apply gn_err|].
     destruct (n_max n <=? 0)%Z; [apply gn_err|].
-    destruct (skip_verify_shape v) as [[e H]|[H|[nm [Hnm H]]]]; rewrite H.
+    destruct (skip_verify_shape v Hsel) as [[e H]|[H|[nm [Hnm H]]]]; rewrite H.
     + apply gn_err.
     + apply gn_ok; [reflexivity | cbn; discriminate].
     + destruct (n_ref n); try apply gn_err.
@@ -251,7 +257,7 @@ Proof.
       destruct (n_digest_mismatch n); [apply gn_err|].
       destruct (n_list_err n); [apply gn_err|].
       assert (Hn : VLib <> VNil) by discriminate.
-      pose proof (nloop_good VLib v Hn Hi Hpm (Z.to_nat (n_max n)) false (n_items n) Hit) as Hl.
+      pose proof (nloop_good VLib v Hsel Hn Hi Hpm (Z.to_nat (n_max n)) false (n_items n) Hit) as Hl.
       inversion Hl as [e He|o Ho Hg He| |b He]; try apply gn_err.
       * apply gn_ok; assumption.
       * destruct b; apply gn_err.
@@ -262,7 +268,7 @@ Proof.
     destruct (n_digest_mismatch n); [apply gn_err|].
     destruct (n_list_err n); [apply gn_err|].
     assert (Hn : VCustom out err <> VNil) by discriminate.
-    pose proof (nloop_good (VCustom out err) v Hn Hi Hpm (Z.to_nat (n_max n)) false (n_items n) Hit) as Hl.
+    pose proof (nloop_good (VCustom out err) v Hsel Hn Hi Hpm (Z.to_nat (n_max n)) false (n_items n) Hit) as Hl.
     inversion Hl as [e He|o Ho Hg He| |b He]; try apply gn_err.
     + apply gn_ok; assumption.
     + destruct b; apply gn_err.
@@ -287,10 +293,11 @@ Proof.
 Qed.
 
 Lemma nverify_blob_good impl v b sc :
+  sel_wf (v_blob v) = true ->
   impl_wf impl = true -> pm_ok (v_pm v) = true -> sc_wf sc = true ->
   good_n (nverify_blob impl v b sc).
 Proof.
-  intros Hi Hpm Hsc. unfold nverify_blob.
+  intros Hsel Hi Hpm Hsc. unfold nverify_blob.
   destruct impl as [| |out err] eqn:Eimpl; [apply gn_err| |].
   - destruct (b_reader_nil b); [apply gn_err|].
     assert (Hn : VLib <> VNil) by discriminate.
@@ -307,10 +314,12 @@ Qed.
 (* ---------- the model as a whole ---------- *)
 Lemma wf_parts i : wf i = true ->
   pm_ok (v_pm (i_v i)) = true /\ sc_wf (i_sc i) = true /\
-  forallb item_wf (n_items (i_n i)) = true /\ impl_wf (i_impl i) = true.
+  forallb item_wf (n_items (i_n i)) = true /\ impl_wf (i_impl i) = true /\
+  sel_wf (v_oci (i_v i)) = true /\ sel_wf (v_blob (i_v i)) = true.
 Proof.
   unfold wf. intros H.
-  apply andb_prop in H as [H H4]. apply andb_prop in H as [H H3]. apply andb_prop in H as [H1 H2].
+  apply andb_prop in H as [H H4]. apply andb_prop in H as [H H3]. apply andb_prop in H as [H H2].
+  apply andb_prop in H as [H H1]. apply andb_prop in H as [Ho Hb].
   repeat split; assumption.
 Qed.
 
@@ -331,21 +340,21 @@ Proof.
     cbn in Hin; try tauto; destruct Hin as [Hin|[]]; inversion Hin; subst; assumption.
 Qed.
 
-Lemma skip_verify_normal v : returns_normally (skip_verify v).
+Lemma skip_verify_normal v : sel_wf (v_oci v) = true -> returns_normally (skip_verify v).
 Proof.
-  destruct (skip_verify_shape v) as [[e H]|[H|[nm [Hnm H]]]]; rewrite H;
+  intros Hsel. destruct (skip_verify_shape v Hsel) as [[e H]|[H|[nm [Hnm H]]]]; rewrite H;
     (split; [discriminate|]); intros f l outs e' oc E Hin; inversion E; subst; destruct Hin.
 Qed.
 
 Theorem no_panic i : wf i = true -> returns_normally (model i).
 Proof.
-  intros Hwf. destruct (wf_parts i Hwf) as (Hpm & Hsc & Hit & Hi).
+  intros Hwf. destruct (wf_parts i Hwf) as (Hpm & Hsc & Hit & Hi & Hso & Hsb).
   unfold model. destruct (uses_lib i && construct_fails i).
   { split; [discriminate|]. intros; discriminate. }
   destruct (i_entry i).
   - eapply good_v_normal, verify_oci_good; assumption.
   - eapply good_v_normal, verify_blob_good; assumption.
-  - apply skip_verify_normal.
+  - apply skip_verify_normal; assumption.
   - apply good_n_normal, nverify_good; assumption.
   - apply good_n_normal, nverify_blob_good; assumption.
   - split; [discriminate|]. intros f l outs e oc E Hin. inversion E; subst.
@@ -384,13 +393,13 @@ Theorem consistent_verifier i f l outs err :
      exists oc, outs = [Some oc] /\ oc_err oc = Some e /\ oc_same oc = true) /\
   (err = None -> exists oc, outs = [Some oc] /\ oc_same oc = true /\ oc_level oc <> None).
 Proof.
-  intros Hwf Hent Hm. destruct (wf_parts i Hwf) as (Hpm & Hsc & Hit & Hi).
+  intros Hwf Hent Hm. destruct (wf_parts i Hwf) as (Hpm & Hsc & Hit & Hi & Hso & Hsb).
   unfold model in Hm. destruct (uses_lib i && construct_fails i); [discriminate|].
   destruct Hent as [Hent|Hent]; rewrite Hent in Hm.
   - rewrite (policy_selected_verify i Hent).
-    exact (good_v_consistent _ _ _ _ _ _ (verify_oci_good _ _ Hpm Hsc) Hm).
+    exact (good_v_consistent _ _ _ _ _ _ (verify_oci_good _ _ Hso Hpm Hsc) Hm).
   - rewrite (policy_selected_blob i Hent).
-    exact (good_v_consistent _ _ _ _ _ _ (verify_blob_good _ _ Hpm Hsc) Hm).
+    exact (good_v_consistent _ _ _ _ _ _ (verify_blob_good _ _ Hsb Hpm Hsc) Hm).
 Qed.
 
 Lemma good_n_consistent o f l outs err :
@@ -409,21 +418,22 @@ Theorem consistent_notation i f l outs err :
   (err = None <-> exists oc, outs = [Some oc] /\ oc_err oc = None) /\
   (err <> None -> outs = [] /\ f = false).
 Proof.
-  intros Hwf Hent Hm. destruct (wf_parts i Hwf) as (Hpm & Hsc & Hit & Hi).
+  intros Hwf Hent Hm. destruct (wf_parts i Hwf) as (Hpm & Hsc & Hit & Hi & Hso & Hsb).
   unfold model in Hm. destruct (uses_lib i && construct_fails i); [discriminate|].
   destruct Hent as [Hent|Hent]; rewrite Hent in Hm.
-  - exact (good_n_consistent _ _ _ _ _ (nverify_good _ _ _ Hi Hpm Hit) Hm).
-  - exact (good_n_consistent _ _ _ _ _ (nverify_blob_good _ _ _ _ Hi Hpm Hsc) Hm).
+  - exact (good_n_consistent _ _ _ _ _ (nverify_good _ _ _ Hso Hi Hpm Hit) Hm).
+  - exact (good_n_consistent _ _ _ _ _ (nverify_blob_good _ _ _ _ Hsb Hi Hpm Hsc) Hm).
 Qed.
 
 Theorem consistent_skip_verify v f l outs err :
+  sel_wf (v_oci v) = true ->
   skip_verify v = ORet f l outs err ->
   outs = [] /\
   (err = None <-> l <> None) /\
   (f = true <-> l = Some NSkip) /\
   (f = true -> err = None).
 Proof.
-  intros H. destruct (skip_verify_shape v) as [[e E]|[E|[nm [Hnm E]]]]; rewrite E in H; inversion H; subst;
+  intros Hsel H. destruct (skip_verify_shape v Hsel) as [[e E]|[E|[nm [Hnm E]]]]; rewrite E in H; inversion H; subst;
     repeat split; try congruence; try discriminate;
     try (intros E'; inversion E'; congruence).
 Qed.
@@ -455,14 +465,14 @@ Qed.
 
 Theorem model_spec_ok i : wf i = true -> spec_ok i (model i) = true.
 Proof.
-  intros Hwf. destruct (wf_parts i Hwf) as (Hpm & Hsc & Hit & Hi).
+  intros Hwf. destruct (wf_parts i Hwf) as (Hpm & Hsc & Hit & Hi & Hso & Hsb).
   unfold model. destruct (uses_lib i && construct_fails i); [reflexivity|].
   destruct (i_entry i) eqn:Hent.
   - apply spec_ok_good_v; [now left|]. rewrite (policy_selected_verify i Hent).
     apply verify_oci_good; assumption.
   - apply spec_ok_good_v; [now right|]. rewrite (policy_selected_blob i Hent).
     apply verify_blob_good; assumption.
-  - destruct (skip_verify_shape (i_v i)) as [[e E]|[E|[nm [Hnm E]]]]; rewrite E; unfold spec_ok; rewrite Hent; cbn;
+  - destruct (skip_verify_shape (i_v i) Hso) as [[e E]|[E|[nm [Hnm E]]]]; rewrite E; unfold spec_ok; rewrite Hent; cbn;
       try reflexivity.
     destruct nm; cbn; congruence.
   - apply spec_ok_good_n; [now left|]. apply nverify_good; assumption.
@@ -585,7 +595,8 @@ Theorem contracts_needed :
   model (i_base EVerify (v_strict (PMPlugin MetaNil)) VLib (sc_plugin (PResp true (Some true) (Some true)))) = OPanic /\
   model (i_base EVerify (v_strict (PMPlugin (Meta true [CapTI]))) VLib (sc_plugin PRNil)) = OPanic /\
   model (i_base EVerifyBlob (v_strict PMNil) VLib (sc_rev RevBadShape)) = OPanic /\
-  model (i_base ENVerifyBlob (v_strict PMNil) (VCustom None false) sc_good) = OPanic.
+  model (i_base ENVerifyBlob (v_strict PMNil) (VCustom None false) sc_good) = OPanic /\
+  model (i_base EVerify (mk_v (Some SelBadLevel) None PMNil) VLib sc_good) = OPanic.
 Proof. repeat split; reflexivity. Qed.
 
 (* a caller-supplied verifier answering (nil, nil) makes notation.Verify return a nil outcome *)
